@@ -409,6 +409,8 @@ pub fn run(tier: Tier) -> i32 {
         ("relative-radius-alias/ellipse-r", "<circle id=\"a\" cxy=\"50 50\" r=\"15\"/><ellipse cxy=\"#a\" r=\"#a~rx\"/>".into(), "<circle id=\"a\" cxy=\"50 50\" r=\"15\"/><ellipse cxy=\"#a\" rxy=\"#a~rx\"/>".into()),
         ("split/xy-two-references-comma", "<ellipse id=\"a\" cxy=\"25 40\" rxy=\"15 20\"/><rect xy=\"#a~x2 , #a~y2\" wh=\"3\"/>".into(), "<ellipse id=\"a\" cxy=\"25 40\" rxy=\"15 20\"/><rect x=\"#a~x2\" y=\"#a~y2\" wh=\"3\"/>".into()),
         ("split/wh-two-references-comma", "<circle id=\"a\" cxy=\"100 100\" rxy=\"15 20\"/><rect x=\"0\" y=\"0\" wh=\"#a~h, #a~w\"/>".into(), "<circle id=\"a\" cxy=\"100 100\" rxy=\"15 20\"/><rect x=\"0\" y=\"0\" width=\"#a~h\" height=\"#a~w\"/>".into()),
+        ("defaults-other-kind/radius-vs-wh", "<defaults><circle r=\"5\"/></defaults><circle cxy=\"0\" wh=\"2\"/>".into(), "<defaults><circle r=\"5\"/></defaults><circle cxy=\"0\" r=\"1\"/>".into()),
+        ("defaults-other-kind/corner-vs-centre", "<defaults><rect x=\"5\" y=\"5\"/></defaults><rect cxy=\"1\" wh=\"2\"/>".into(), "<defaults><rect x=\"5\" y=\"5\"/></defaults><rect xy=\"0\" wh=\"2\"/>".into()),
         ("resize-rect-centre-length", "<rect cx=\"6\" width=\"10\" cy=\"5\" height=\"10\" dwh=\"2\"/>".into(), "<rect cx=\"6\" width=\"12\" cy=\"5\" height=\"12\"/>".into()),
     ];
     let st = run_space(eq_pairs.len(), |i| {
